@@ -1,4 +1,1363 @@
 import TT.Model.UdpFlows
 namespace TT.UdpFlows
+set_option linter.unusedSimpArgs false
+
+/-! ## generic list facts -/
+
+section ListFacts
+variable {α : Type} {κ : Type} [DecidableEq κ]
+
+theorem find?_filter_key_ne (key : α → κ) (l : List α) {m m' : κ} (h : m' ≠ m) :
+    (l.filter (fun x => key x != m)).find? (fun x => key x == m') = l.find? (fun x => key x == m') := by
+  induction l with
+  | nil => rfl
+  | cons a l ih =>
+    by_cases h1 : key a = m
+    · subst h1
+      have : key a ≠ m' := fun e => h e.symm
+      simp [List.filter_cons, this, ih]
+    · by_cases h2 : key a = m'
+      · subst h2
+        simp [List.filter_cons, h1]
+      · simp [List.filter_cons, h1, h2, ih]
+
+theorem find?_filter_key_self (key : α → κ) (l : List α) (m : κ) :
+    (l.filter (fun x => key x != m)).find? (fun x => key x == m) = none := by
+  induction l with
+  | nil => rfl
+  | cons a l ih =>
+    by_cases h1 : key a = m <;> simp [List.filter_cons, h1, ih]
+
+theorem any_filter_key_self (key : α → κ) (l : List α) (m : κ) :
+    (l.filter (fun x => key x != m)).any (fun x => key x == m) = false := by
+  induction l with
+  | nil => rfl
+  | cons a l ih =>
+    by_cases h1 : key a = m <;> simp [List.filter_cons, h1, ih]
+
+/-- mapping with a key-preserving function that is the identity off key `m` -/
+theorem find?_map_key_other (key : α → κ) (g : α → α) (l : List α) {m m' : κ} (h : m' ≠ m)
+    (hk : ∀ x, key (g x) = key x) (hid : ∀ x, key x ≠ m → g x = x) :
+    (l.map g).find? (fun x => key x == m') = l.find? (fun x => key x == m') := by
+  induction l with
+  | nil => rfl
+  | cons a l ih =>
+    by_cases h2 : key a = m'
+    · have : g a = a := hid a (by rw [h2]; exact h)
+      simp [h2, this]
+    · simp [hk, h2, ih]
+
+theorem find?_map_key_self (key : α → κ) (g : α → α) (l : List α) {m : κ} {e : α}
+    (hk : ∀ x, key (g x) = key x) (he : l.find? (fun x => key x == m) = some e) :
+    (l.map g).find? (fun x => key x == m) = some (g e) := by
+  induction l with
+  | nil => simp at he
+  | cons a l ih =>
+    by_cases h2 : key a = m
+    · simp [h2] at he
+      subst he
+      simp [List.find?_cons, hk, h2]
+    · simp [h2] at he
+      simp [List.find?_cons, hk, h2, ih he]
+
+theorem any_key_eq_find? (key : α → κ) (l : List α) (m : κ) :
+    l.any (fun x => key x == m) = (l.find? (fun x => key x == m)).isSome := by
+  induction l with
+  | nil => rfl
+  | cons a l ih =>
+    by_cases h2 : key a = m <;> simp [h2, ih]
+
+theorem any_key_eq_mem (key : α → κ) (l : List α) (m : κ) :
+    l.any (fun x => key x == m) = true ↔ m ∈ l.map key := by
+  simp only [List.any_eq_true, List.mem_map, beq_iff_eq]
+
+theorem find?_key_of_mem_nodup (key : α → κ) (l : List α) (hn : (l.map key).Nodup) {e : α}
+    (he : e ∈ l) : l.find? (fun x => key x == key e) = some e := by
+  induction l with
+  | nil => simp at he
+  | cons a l ih =>
+    simp only [List.map_cons, List.nodup_cons] at hn
+    rcases List.mem_cons.1 he with rfl | h
+    · simp
+    · have : key a ≠ key e := fun h' => hn.1 (h' ▸ List.mem_map_of_mem h)
+      simp [this, ih hn.2 h]
+
+theorem find?_key_some (key : α → κ) {l : List α} {m : κ} {e : α}
+    (h : l.find? (fun x => key x == m) = some e) : e ∈ l ∧ key e = m := by
+  have h1 := List.mem_of_find?_eq_some h
+  have h2 := List.find?_some h
+  exact ⟨h1, by simpa using h2⟩
+
+theorem filter_key_ne_length (key : α → κ) (l : List α) (hn : (l.map key).Nodup) {e : α}
+    (he : e ∈ l) : (l.filter (fun x => key x != key e)).length + 1 = l.length := by
+  induction l with
+  | nil => simp at he
+  | cons a l ih =>
+    simp only [List.map_cons, List.nodup_cons] at hn
+    rcases List.mem_cons.1 he with rfl | h
+    · have : l.filter (fun x => key x != key e) = l := by
+        apply List.filter_eq_self.2
+        intro x hx
+        have : key x ≠ key e := fun h' => hn.1 (h' ▸ List.mem_map_of_mem hx)
+        simpa using this
+      simp [List.filter_cons, this]
+    · have : key a ≠ key e := fun h' => hn.1 (h' ▸ List.mem_map_of_mem h)
+      simp [List.filter_cons, this, ih hn.2 h]
+
+theorem eq_of_nodup_map (key : α → κ) {l : List α} (hn : (l.map key).Nodup) {a b : α}
+    (ha : a ∈ l) (hb : b ∈ l) (h : key a = key b) : a = b := by
+  have h1 := find?_key_of_mem_nodup key l hn ha
+  have h2 := find?_key_of_mem_nodup key l hn hb
+  rw [h, h2] at h1
+  exact (Option.some.inj h1).symm
+
+end ListFacts
+
+/-! ## the invariant -/
+
+structure Core (c : Cfg) (s : St) : Prop where
+  keys : s.socks.map (·.key) = s.pipe.map (·.key)
+  nodupK : (s.pipe.map (·.key)).Nodup
+  nodupId : (s.socks.map (·.id)).Nodup
+  sock : ∀ k ∈ s.socks, k.dest = k.key.dst ∧ k.id < s.nextId ∧ c.kind k.dest ≠ .unconn
+  peerLt : ∀ p ∈ s.peers, p.2 < s.nextId
+  peerKey : ∀ p ∈ s.peers, ∀ k ∈ s.socks, k.id = p.2 → k.key = p.1
+  pend : ∀ e ∈ s.pipe, e.pending.isSome → c.kind e.key.dst = .dns
+  tick : s.nextTick ≤ s.now + c.timeout / 4
+  last : ∀ e ∈ s.pipe, e.last ≤ s.now
+  fin : s.finished = true → s.pipe = [] ∧ s.socks = []
+
+/-- every socket towards a listening destination is the one its server knows for the flow
+(except possibly the flow `ex`, in the middle of `stepDg`) -/
+def Known (c : Cfg) (s : St) (ex : Option Meta) : Prop :=
+  ∀ k ∈ s.socks, some k.key ≠ ex → (c.kind k.dest = .live ∨ c.kind k.dest = .dns) →
+    s.peers.find? (·.1 == k.key) = some (k.key, k.id)
+
+structure Inv (c : Cfg) (s : St) : Prop where
+  core : Core c s
+  known : Known c s none
+
+theorem Core.nodupSK {c s} (h : Core c s) : (s.socks.map (·.key)).Nodup := h.keys ▸ h.nodupK
+
+theorem hasPipe_iff {s : St} {m : Meta} : hasPipe s m = true ↔ m ∈ s.pipe.map (·.key) :=
+  any_key_eq_mem PipeEntry.key s.pipe m
+
+theorem findSock_isSome_iff {s : St} {m : Meta} :
+    (findSock s m).isSome = true ↔ m ∈ s.socks.map (·.key) := by
+  unfold findSock
+  rw [← any_key_eq_find? Sock.key s.socks m]
+  exact any_key_eq_mem Sock.key s.socks m
+
+theorem Core.coupled {c s} (h : Core c s) (m : Meta) : hasPipe s m = (findSock s m).isSome := by
+  rw [Bool.eq_iff_iff, hasPipe_iff, findSock_isSome_iff, h.keys]
+
+theorem findSock_some {s : St} {m : Meta} {k : Sock} (h : findSock s m = some k) :
+    k ∈ s.socks ∧ k.key = m := find?_key_some Sock.key h
+
+theorem pipeFind_some {s : St} {m : Meta} {e : PipeEntry} (h : s.pipe.find? (·.key == m) = some e) :
+    e ∈ s.pipe ∧ e.key = m := find?_key_some PipeEntry.key h
+
+/-! ### restriction of both tables to a set of keys -/
+
+def keep (s : St) (q : Meta → Bool) : St :=
+  { s with pipe := s.pipe.filter (fun e => q e.key), socks := s.socks.filter (fun k => q k.key) }
+
+theorem remove_eq (s : St) (m : Meta) : removeSock (removePipe s m) m = keep s (· != m) := rfl
+
+theorem Core.restrict {c s} (h : Core c s) (q : Meta → Bool) : Core c (keep s q) where
+  keys := by
+    show (s.socks.filter (q ∘ (·.key))).map (·.key) = (s.pipe.filter (q ∘ (·.key))).map (·.key)
+    rw [← List.filter_map, ← List.filter_map, h.keys]
+  nodupK := (List.filter_sublist.map _).nodup h.nodupK
+  nodupId := (List.filter_sublist.map _).nodup h.nodupId
+  sock := fun k hk => h.sock k ((List.mem_filter.1 hk).1)
+  peerLt := h.peerLt
+  peerKey := fun p hp k hk => h.peerKey p hp k ((List.mem_filter.1 hk).1)
+  pend := fun e he => h.pend e ((List.mem_filter.1 he).1)
+  tick := h.tick
+  last := fun e he => h.last e ((List.mem_filter.1 he).1)
+  fin := fun hf => by
+    have := h.fin hf
+    simp [keep, this.1, this.2]
+
+theorem Known.restrict {c s ex} (h : Known c s ex) (q : Meta → Bool) : Known c (keep s q) ex :=
+  fun k hk => h k ((List.mem_filter.1 hk).1)
+
+theorem Known.weaken {c s ex} (h : Known c s none) : Known c s ex :=
+  fun k hk _ => h k hk (by simp)
+
+theorem Inv.restrict {c s} (h : Inv c s) (q : Meta → Bool) : Inv c (keep s q) :=
+  ⟨h.core.restrict q, h.known.restrict q⟩
+
+/-! ### mapping the tables with functions that keep the identifying fields -/
+
+theorem Core.mapSocks {c s} (h : Core c s) (g : Sock → Sock)
+    (hg : ∀ x, (g x).key = x.key ∧ (g x).id = x.id ∧ (g x).dest = x.dest) :
+    Core c { s with socks := s.socks.map g } where
+  keys := by
+    have : (fun x : Sock => x.key) ∘ g = (fun x => x.key) := funext fun x => (hg x).1
+    simp only [List.map_map, this]; exact h.keys
+  nodupK := h.nodupK
+  nodupId := by
+    have : (fun x : Sock => x.id) ∘ g = (fun x => x.id) := funext fun x => (hg x).2.1
+    simp only [List.map_map, this]; exact h.nodupId
+  sock := fun k hk => by
+    obtain ⟨k0, hk0, rfl⟩ := List.mem_map.1 hk
+    have := h.sock k0 hk0
+    rw [(hg k0).1, (hg k0).2.1, (hg k0).2.2]; exact this
+  peerLt := h.peerLt
+  peerKey := fun p hp k hk => by
+    obtain ⟨k0, hk0, rfl⟩ := List.mem_map.1 hk
+    have := h.peerKey p hp k0 hk0
+    rw [(hg k0).1, (hg k0).2.1]; exact this
+  pend := h.pend
+  tick := h.tick
+  last := h.last
+  fin := fun hf => by
+    have := h.fin hf
+    simp [this.1, this.2]
+
+theorem Known.mapSocks {c s ex} (h : Known c s ex) (g : Sock → Sock)
+    (hg : ∀ x, (g x).key = x.key ∧ (g x).id = x.id ∧ (g x).dest = x.dest) :
+    Known c { s with socks := s.socks.map g } ex := fun k hk => by
+  obtain ⟨k0, hk0, rfl⟩ := List.mem_map.1 hk
+  have := h k0 hk0
+  rw [(hg k0).1, (hg k0).2.1, (hg k0).2.2]; exact this
+
+theorem Core.mapPipe {c s} (h : Core c s) (g : PipeEntry → PipeEntry)
+    (hg : ∀ x ∈ s.pipe, (g x).key = x.key ∧ (g x).last ≤ s.now ∧
+      ((g x).pending.isSome → c.kind x.key.dst = .dns)) :
+    Core c { s with pipe := s.pipe.map g } where
+  keys := by
+    have : s.pipe.map ((fun x : PipeEntry => x.key) ∘ g) = s.pipe.map (fun x => x.key) :=
+      List.map_congr_left fun x hx => (hg x hx).1
+    simp only [List.map_map, this]; exact h.keys
+  nodupK := by
+    have : s.pipe.map ((fun x : PipeEntry => x.key) ∘ g) = s.pipe.map (fun x => x.key) :=
+      List.map_congr_left fun x hx => (hg x hx).1
+    simp only [List.map_map, this]; exact h.nodupK
+  nodupId := h.nodupId
+  sock := h.sock
+  peerLt := h.peerLt
+  peerKey := h.peerKey
+  pend := fun e he => by
+    obtain ⟨e0, he0, rfl⟩ := List.mem_map.1 he
+    rw [(hg e0 he0).1]; exact (hg e0 he0).2.2
+  tick := h.tick
+  last := fun e he => by
+    obtain ⟨e0, he0, rfl⟩ := List.mem_map.1 he
+    exact (hg e0 he0).2.1
+  fin := fun hf => by
+    have := h.fin hf
+    simp [this.1, this.2]
+
+/-! ### field updates that the invariant does not look at, or only monotonically -/
+
+theorem Core.setUp {c s} (h : Core c s) (u : Nat) : Core c { s with up := u } :=
+  ⟨h.keys, h.nodupK, h.nodupId, h.sock, h.peerLt, h.peerKey, h.pend, h.tick, h.last, h.fin⟩
+
+theorem Core.setDown {c s} (h : Core c s) (d : Nat) : Core c { s with down := d } :=
+  ⟨h.keys, h.nodupK, h.nodupId, h.sock, h.peerLt, h.peerKey, h.pend, h.tick, h.last, h.fin⟩
+
+theorem Inv.setDown {c s} (h : Inv c s) (d : Nat) : Inv c { s with down := d } :=
+  ⟨h.core.setDown d, h.known⟩
+
+theorem Core.setTick {c s} (h : Core c s) (t : Nat) (ht : t ≤ s.now + c.timeout / 4) :
+    Core c { s with nextTick := t } :=
+  ⟨h.keys, h.nodupK, h.nodupId, h.sock, h.peerLt, h.peerKey, h.pend, ht, h.last, h.fin⟩
+
+theorem Core.setNow {c s} (h : Core c s) (t : Nat) (ht : s.now ≤ t) : Core c { s with now := t } :=
+  ⟨h.keys, h.nodupK, h.nodupId, h.sock, h.peerLt, h.peerKey, h.pend,
+    Nat.le_trans h.tick (Nat.add_le_add_right ht _), fun e he => Nat.le_trans (h.last e he) ht, h.fin⟩
+
+/-! ### `setPeer` -/
+
+theorem find?_setPeer_self (ps : List (Meta × Nat)) (m : Meta) (id : Nat) :
+    (setPeer ps m id).find? (·.1 == m) = some (m, id) := by
+  simp [setPeer]
+
+theorem find?_setPeer_other (ps : List (Meta × Nat)) {m m' : Meta} (h : m' ≠ m) (id : Nat) :
+    (setPeer ps m id).find? (·.1 == m') = ps.find? (·.1 == m') := by
+  unfold setPeer
+  rw [List.find?_cons_of_neg (by simpa using fun e => h e.symm)]
+  exact find?_filter_key_ne Prod.fst ps h
+
+theorem setPeer_inv {c s m k} (hc : Core c s) (hk : Known c s (some m)) (hs : findSock s m = some k)
+    (u : Nat) : Inv c { s with up := u, peers := setPeer s.peers m k.id } := by
+  obtain ⟨hkm, hkk⟩ := findSock_some hs
+  refine ⟨⟨hc.keys, hc.nodupK, hc.nodupId, hc.sock, ?_, ?_, hc.pend, hc.tick, hc.last, hc.fin⟩, ?_⟩
+  · intro p hp
+    rcases List.mem_cons.1 hp with rfl | hp
+    · exact (hc.sock k hkm).2.1
+    · exact hc.peerLt p (List.mem_filter.1 hp).1
+  · intro p hp k' hk' hid
+    rcases List.mem_cons.1 hp with rfl | hp
+    · have : k' = k := eq_of_nodup_map Sock.id hc.nodupId hk' hkm hid
+      rw [this]; exact hkk
+    · exact hc.peerKey p (List.mem_filter.1 hp).1 k' hk' hid
+  · intro k' hk' _ hkind
+    by_cases hkey : k'.key = m
+    · have : k' = k := eq_of_nodup_map Sock.key hc.nodupSK hk' hkm (hkey.trans hkk.symm)
+      subst this
+      show (setPeer s.peers m k'.id).find? (·.1 == k'.key) = _
+      rw [hkey]; exact find?_setPeer_self _ _ _
+    · show (setPeer s.peers m k.id).find? (·.1 == k'.key) = _
+      rw [find?_setPeer_other _ hkey]
+      exact hk k' hk' (by simpa using hkey) hkind
+
+theorem Known.of_except {c s m} (h : Known c s (some m))
+    (hm : ∀ k ∈ s.socks, k.key = m → ¬(c.kind k.dest = .live ∨ c.kind k.dest = .dns)) :
+    Known c s none := fun k hk _ hkind => by
+  by_cases hkm : k.key = m
+  · exact absurd hkind (hm k hk hkm)
+  · exact h k hk (by simpa using hkm) hkind
+
+theorem Known.restrict_ne {c s m} (h : Known c s (some m)) :
+    Known c (keep s (· != m)) none := fun k hk _ hkind => by
+  have := List.mem_filter.1 hk
+  exact h k this.1 (by simpa using this.2) hkind
+
+/-! ### `sinkWrite` -/
+
+theorem sinkWrite_inv {c s m len} (hc : Core c s) (hk : Known c s (some m)) :
+    Inv c (sinkWrite c s m len).1 := by
+  unfold sinkWrite
+  split
+  · dsimp only; rw [remove_eq]; exact ⟨hc.restrict _, hk.restrict_ne⟩
+  · next k hs =>
+    obtain ⟨hkm, hkk⟩ := findSock_some hs
+    split
+    · dsimp only; rw [remove_eq]; exact ⟨hc.restrict _, hk.restrict_ne⟩
+    · have hone : ∀ k' ∈ s.socks, k'.key = m → k' = k := fun k' hk' h' =>
+        eq_of_nodup_map Sock.key hc.nodupSK hk' hkm (h'.trans hkk.symm)
+      split
+      · exact setPeer_inv hc hk hs _
+      · exact setPeer_inv hc hk hs _
+      · next hkind =>
+        dsimp only
+        refine ⟨(hc.setUp (s.up + len)).mapSocks
+          (fun x => if x.key == m then { x with poisoned := true } else x) ?_, ?_⟩
+        · intro x; split <;> simp
+        · apply Known.of_except
+          · apply Known.mapSocks (s := { s with up := s.up + len }) hk
+            intro x; split <;> simp
+          · intro k' hk' h'
+            obtain ⟨k0, hk0, rfl⟩ := List.mem_map.1 hk'
+            have e : (if k0.key == m then { k0 with poisoned := true } else k0).dest = k0.dest := by
+              split <;> rfl
+            have e2 : (if k0.key == m then { k0 with poisoned := true } else k0).key = k0.key := by
+              split <;> rfl
+            rw [e]; rw [e2] at h'
+            rw [hone k0 hk0 h', hkind]; simp
+      · next hkind =>
+        dsimp only
+        refine ⟨hc.setUp _, Known.of_except (s := { s with up := s.up + len }) hk ?_⟩
+        intro k' hk' h'
+        rw [hone k' hk' h', hkind]; simp
+
+/-! ### `stepDg` -/
+
+theorem touchOut_key (now : Nat) (e : PipeEntry) : (touchOut now e).key = e.key := rfl
+theorem touchOut_last (now : Nat) (e : PipeEntry) : (touchOut now e).last = now := rfl
+theorem touchOut_pending (now : Nat) (e : PipeEntry) :
+    (touchOut now e).pending = e.pending.map (· + 1) := rfl
+
+theorem Core.touch {c s} (h : Core c s) (m : Meta) :
+    Core c { s with pipe := s.pipe.map fun e => if e.key == m then touchOut s.now e else e } := by
+  apply h.mapPipe
+  intro x hx
+  split
+  · refine ⟨rfl, Nat.le_refl _, fun hp => h.pend x hx ?_⟩
+    simpa [touchOut_pending] using hp
+  · exact ⟨rfl, h.last x hx, h.pend x hx⟩
+
+theorem Core.insert {c s} (h : Core c s) (hf : s.finished = false) (m : Meta) (hn : hasPipe s m = false)
+    (hu : c.kind m.dst ≠ .unconn) (e : PipeEntry) (hek : e.key = m) (hel : e.last ≤ s.now)
+    (hep : e.pending.isSome → c.kind m.dst = .dns) :
+    Core c { s with pipe := e :: s.pipe,
+                    socks := { key := m, id := s.nextId, dest := m.dst, poisoned := false } :: s.socks,
+                    nextId := s.nextId + 1 } where
+  keys := by simp [hek, h.keys]
+  nodupK := by
+    have : m ∉ s.pipe.map (·.key) := fun hm => by simp [hasPipe_iff.2 hm] at hn
+    simp only [List.map_cons, List.nodup_cons, hek]
+    exact ⟨this, h.nodupK⟩
+  nodupId := by
+    simp only [List.map_cons, List.nodup_cons]
+    refine ⟨fun hm => ?_, h.nodupId⟩
+    obtain ⟨k, hk, hid⟩ := List.mem_map.1 hm
+    have := (h.sock k hk).2.1
+    omega
+  sock := fun k hk => by
+    rcases List.mem_cons.1 hk with rfl | hk
+    · exact ⟨rfl, Nat.lt_succ_self _, hu⟩
+    · have := h.sock k hk
+      exact ⟨this.1, Nat.lt_succ_of_lt this.2.1, this.2.2⟩
+  peerLt := fun p hp => Nat.lt_succ_of_lt (h.peerLt p hp)
+  peerKey := fun p hp k hk hid => by
+    rcases List.mem_cons.1 hk with rfl | hk
+    · have := h.peerLt p hp
+      simp only at hid; omega
+    · exact h.peerKey p hp k hk hid
+  pend := fun e' he' hp => by
+    rcases List.mem_cons.1 he' with rfl | he'
+    · rw [hek]; exact hep hp
+    · exact h.pend e' he' hp
+  tick := h.tick
+  last := fun e' he' => by
+    rcases List.mem_cons.1 he' with rfl | he'
+    · exact hel
+    · exact h.last e' he'
+  fin := fun hf' => by simp [hf] at hf'
+
+theorem Known.insert {c s} (h : Known c s none) (m : Meta) (e : PipeEntry) (sk : Sock) (hsk : sk.key = m)
+    (n : Nat) : Known c { s with pipe := e :: s.pipe, socks := sk :: s.socks, nextId := n } (some m) :=
+  fun k hk hne hkind => by
+    rcases List.mem_cons.1 hk with rfl | hk
+    · simp [hsk] at hne
+    · exact h k hk (by simp) hkind
+
+theorem stepDg_inv {c s m len} (h : Inv c s) (hf : s.finished = false) :
+    Inv c (stepDg c s m len).1 := by
+  unfold stepDg
+  split
+  · exact sinkWrite_inv (h.core.touch m) h.known.weaken
+  · next hn =>
+    have hn : hasPipe s m = false := by simpa using hn
+    split
+    · exact h
+    · split
+      · exact h
+      · next hu =>
+        apply sinkWrite_inv
+        · apply h.core.insert hf m hn (by simpa using hu) _ rfl (Nat.le_refl _)
+          intro hp
+          by_cases hd : c.kind m.dst = .dns
+          · exact hd
+          · simp [touchOut_pending, hd] at hp
+        · exact h.known.insert m _ _ rfl _
+
+/-! ### `stepReply` -/
+
+/-- the part of `stepReply` after the reply has found an open socket of a listening server -/
+def replyCore (s : St) (k : Sock) (m : Meta) (len : Nat) : St × Obs :=
+  let s := { s with down := s.down + len }
+  let obs : Obs := { cli := [(k.key, m, len)] }
+  match s.pipe.find? (·.key == k.key) with
+  | none => (s, obs)
+  | some e =>
+    let (e', done) := touchIn s.now e
+    if done then
+      (removeSock (removePipe s k.key) k.key, obs)
+    else
+      ({ s with pipe := s.pipe.map fun x => if x.key == k.key then e' else x }, obs)
+
+theorem stepReply_cases (c : Cfg) (s : St) (m : Meta) (len : Nat) :
+    stepReply c s m len = (s, {}) ∨
+    ∃ p k, s.peers.find? (·.1 == m) = some p ∧ s.socks.find? (·.id == p.2) = some k ∧
+      (c.kind k.dest = .live ∨ c.kind k.dest = .dns) ∧ stepReply c s m len = replyCore s k m len := by
+  unfold stepReply
+  split
+  · exact .inl rfl
+  · next m' id hp =>
+    split
+    · exact .inl rfl
+    · next k hk =>
+      split
+      · next hkind => exact .inr ⟨_, k, hp, hk, .inl hkind, rfl⟩
+      · next hkind => exact .inr ⟨_, k, hp, hk, .inr hkind, rfl⟩
+      · exact .inl rfl
+
+theorem reply_sock_key {c s m} (h : Inv c s) {p : Meta × Nat} {k : Sock}
+    (hp : s.peers.find? (·.1 == m) = some p) (hk : s.socks.find? (·.id == p.2) = some k) :
+    k ∈ s.socks ∧ k.key = m := by
+  obtain ⟨hp1, hp2⟩ := find?_key_some Prod.fst hp
+  obtain ⟨hk1, hk2⟩ := find?_key_some Sock.id hk
+  exact ⟨hk1, (h.core.peerKey p hp1 k hk1 hk2).trans hp2⟩
+
+theorem stepReply_live {c s m k} (h : Inv c s) (hs : findSock s m = some k)
+    (hkind : c.kind k.dest = .live ∨ c.kind k.dest = .dns) (len : Nat) :
+    stepReply c s m len = replyCore s k m len := by
+  obtain ⟨hkm, hkk⟩ := findSock_some hs
+  have hp := h.known k hkm (by simp) hkind
+  rw [hkk] at hp
+  have hk : s.socks.find? (·.id == k.id) = some k := find?_key_of_mem_nodup Sock.id _ h.core.nodupId hkm
+  unfold stepReply
+  rw [hp]; simp only []; rw [hk]; simp only []
+  rcases hkind with h' | h' <;> rw [h'] <;> rfl
+
+theorem touchIn_key (now : Nat) (e : PipeEntry) : (touchIn now e).1.key = e.key := by
+  unfold touchIn; split <;> rfl
+theorem touchIn_last (now : Nat) (e : PipeEntry) : (touchIn now e).1.last = now := by
+  unfold touchIn; split <;> rfl
+theorem touchIn_pending (now : Nat) (e : PipeEntry) :
+    (touchIn now e).1.pending.isSome → e.pending.isSome := by
+  unfold touchIn; split <;> simp_all
+
+theorem replyCore_inv {c s k m len} (h : Inv c s) : Inv c (replyCore s k m len).1 := by
+  unfold replyCore
+  simp only []
+  split
+  · exact h.setDown _
+  · next e he =>
+    obtain ⟨he1, he2⟩ := pipeFind_some (s := s) he
+    split
+    · dsimp only; rw [remove_eq]; exact (h.setDown _).restrict _
+    · dsimp only
+      refine ⟨(h.core.setDown (s.down + len)).mapPipe
+        (fun x => if x.key == k.key then (touchIn s.now e).1 else x) ?_, h.known⟩
+      intro x hx
+      split
+      · next hxk =>
+        have hxk : x.key = k.key := by simpa using hxk
+        refine ⟨by rw [touchIn_key, he2, hxk], by rw [touchIn_last]; exact Nat.le_refl _, fun hp => ?_⟩
+        rw [hxk, ← he2]
+        exact h.core.pend e he1 (touchIn_pending _ _ hp)
+      · exact ⟨rfl, h.core.last x hx, h.core.pend x hx⟩
+
+theorem stepReply_inv {c s m len} (h : Inv c s) : Inv c (stepReply c s m len).1 := by
+  rcases stepReply_cases c s m len with e | ⟨p, k, _, _, _, e⟩
+  · rw [e]; exact h
+  · rw [e]; exact replyCore_inv h
+
+/-! ### `stepAdv` -/
+
+theorem Inv.keep_setTick {c s} (h : Inv c s) (q : Meta → Bool) (t : Nat)
+    (ht : t ≤ s.now + c.timeout / 4) : Inv c { keep s q with nextTick := t } :=
+  ⟨(h.core.restrict q).setTick t ht, h.known.restrict q⟩
+
+
+theorem expire_eq {c s} (hn : (s.pipe.map (·.key)).Nodup) :
+    expire c s = keep s (fun key =>
+      !((s.pipe.filter fun e => e.last + c.timeout < s.now).map (·.key)).contains key) := by
+  unfold expire keep
+  dsimp only
+  congr 1
+  apply List.filter_congr
+  intro e he
+  congr 1
+  rw [Bool.eq_iff_iff]
+  simp only [decide_eq_true_eq, List.contains_iff_mem, List.mem_map, List.mem_filter]
+  constructor
+  · intro hx; exact ⟨e, ⟨he, hx⟩, rfl⟩
+  · rintro ⟨e', ⟨he', hx⟩, hk⟩
+    rw [← eq_of_nodup_map PipeEntry.key hn he' he hk]; exact hx
+
+theorem stepAdv_inv {c s ms} (h : Inv c s) : Inv c (stepAdv c s ms) := by
+  unfold stepAdv
+  have h1 : Inv c { s with now := s.now + ms } := ⟨h.core.setNow _ (Nat.le_add_right _ _), h.known⟩
+  simp only []
+  split
+  · rw [expire_eq h1.core.nodupK]
+    exact h1.keep_setTick _ _ (Nat.le_refl _)
+  · exact h1
+
+/-! ### `step`, `run` -/
+
+theorem inv_init (c : Cfg) : Inv c (init c) := by
+  refine ⟨⟨rfl, List.nodup_nil, List.nodup_nil, ?_, ?_, ?_, ?_, ?_, ?_, ?_⟩, ?_⟩ <;>
+    simp [init, Known]
+
+theorem step_inv {c s} (h : Inv c s) (op : Op) : Inv c (step c s op).1 := by
+  unfold step
+  split
+  · exact h
+  · next hf =>
+    have hf : s.finished = false := by simpa using hf
+    cases op with
+    | dg m len => exact stepDg_inv h hf
+    | reply m len => exact stepReply_inv h
+    | adv ms => exact stepAdv_inv h
+    | close =>
+      refine ⟨⟨rfl, List.nodup_nil, List.nodup_nil, ?_, h.core.peerLt, ?_, ?_, h.core.tick, ?_, ?_⟩, ?_⟩ <;>
+        simp [Known]
+
+theorem run_inv {c s} (h : Inv c s) (ops : List Op) : Inv c (run c s ops).1 := by
+  induction ops generalizing s with
+  | nil => exact h
+  | cons op ops ih => exact ih (step_inv h op)
+
+theorem run_append_fst (c : Cfg) (s : St) (a b : List Op) :
+    (run c s (a ++ b)).1 = (run c (run c s a).1 b).1 := by
+  induction a generalizing s with
+  | nil => rfl
+  | cons op a ih => exact ih _
+
+theorem run_append_snd (c : Cfg) (s : St) (a b : List Op) :
+    (run c s (a ++ b)).2 = (run c s a).2 ++ (run c (run c s a).1 b).2 := by
+  induction a generalizing s with
+  | nil => rfl
+  | cons op a ih => simp [run, ih]
+
+theorem run_snoc_fst (c : Cfg) (s : St) (a : List Op) (op : Op) :
+    (run c s (a ++ [op])).1 = (step c (run c s a).1 op).1 := by
+  rw [run_append_fst]; rfl
+
+theorem runFrom_inv (c : Cfg) (ops : List Op) : Inv c (runFrom c ops).1 := run_inv (inv_init c) ops
+
+theorem Inv.not_finished_of_pipe {c s} (h : Inv c s) {e : PipeEntry} (he : e ∈ s.pipe) :
+    s.finished = false := by
+  cases hf : s.finished with
+  | false => rfl
+  | true => rw [(h.core.fin hf).1] at he; simp at he
+
+theorem Inv.not_finished_of_sock {c s} (h : Inv c s) {k : Sock} (hk : k ∈ s.socks) :
+    s.finished = false := by
+  cases hf : s.finished with
+  | false => rfl
+  | true => rw [(h.core.fin hf).2] at hk; simp at hk
+
+theorem step_of_not_finished {c s} (hf : s.finished = false) (op : Op) :
+    step c s op = match op with
+      | .dg m len => stepDg c s m len
+      | .reply m len => stepReply c s m len
+      | .adv ms => (stepAdv c s ms, {})
+      | .close => ({ s with finished := true, pipe := [], socks := [] }, {}) := by
+  unfold step
+  rw [if_neg (by simp [hf])]
+  cases op <;> rfl
+
+theorem step_of_finished {c s} (hf : s.finished = true) (op : Op) : step c s op = (s, {}) := by
+  simp [step, hf]
+
+/-! ## frame: what the operations leave alone -/
+
+structure Frame (s' s : St) : Prop where
+  now : s'.now = s.now
+  nextTick : s'.nextTick = s.nextTick
+  finished : s'.finished = s.finished
+
+theorem Frame.rfl' (s : St) : Frame s s := ⟨rfl, rfl, rfl⟩
+
+theorem sinkWrite_frame (c : Cfg) (s : St) (m : Meta) (len : Nat) :
+    Frame (sinkWrite c s m len).1 s ∧ (sinkWrite c s m len).1.down = s.down ∧
+      (sinkWrite c s m len).2.cli = [] := by
+  unfold sinkWrite
+  split
+  · exact ⟨⟨rfl, rfl, rfl⟩, rfl, rfl⟩
+  · split
+    · exact ⟨⟨rfl, rfl, rfl⟩, rfl, rfl⟩
+    · split <;> exact ⟨⟨rfl, rfl, rfl⟩, rfl, rfl⟩
+
+theorem sinkWrite_frame' (c : Cfg) (s s0 : St) (m : Meta) (len : Nat) (h0 : Frame s s0)
+    (hd : s.down = s0.down) :
+    Frame (sinkWrite c s m len).1 s0 ∧ (sinkWrite c s m len).1.down = s0.down ∧
+      (sinkWrite c s m len).2.cli = [] := by
+  obtain ⟨f, d, cl⟩ := sinkWrite_frame c s m len
+  exact ⟨⟨f.now.trans h0.now, f.nextTick.trans h0.nextTick, f.finished.trans h0.finished⟩,
+    d.trans hd, cl⟩
+
+theorem stepDg_frame (c : Cfg) (s : St) (m : Meta) (len : Nat) :
+    Frame (stepDg c s m len).1 s ∧ (stepDg c s m len).1.down = s.down ∧
+      (stepDg c s m len).2.cli = [] := by
+  unfold stepDg
+  split
+  · exact sinkWrite_frame' c _ s m len ⟨rfl, rfl, rfl⟩ rfl
+  · split
+    · exact ⟨⟨rfl, rfl, rfl⟩, rfl, rfl⟩
+    · split
+      · exact ⟨⟨rfl, rfl, rfl⟩, rfl, rfl⟩
+      · exact sinkWrite_frame' c _ s m len ⟨rfl, rfl, rfl⟩ rfl
+
+theorem replyCore_frame (s : St) (k : Sock) (m : Meta) (len : Nat) :
+    Frame (replyCore s k m len).1 s ∧ (replyCore s k m len).1.down = s.down + len ∧
+      (replyCore s k m len).2 = { cli := [(k.key, m, len)] } := by
+  unfold replyCore
+  simp only []
+  split
+  · exact ⟨⟨rfl, rfl, rfl⟩, rfl, rfl⟩
+  · split <;> exact ⟨⟨rfl, rfl, rfl⟩, rfl, rfl⟩
+
+theorem stepReply_frame (c : Cfg) (s : St) (m : Meta) (len : Nat) :
+    Frame (stepReply c s m len).1 s := by
+  rcases stepReply_cases c s m len with e | ⟨p, k, _, _, _, e⟩
+  · rw [e]; exact ⟨rfl, rfl, rfl⟩
+  · rw [e]; exact (replyCore_frame s k m len).1
+
+theorem stepAdv_finished (c : Cfg) (s : St) (ms : Nat) : (stepAdv c s ms).finished = s.finished := by
+  unfold stepAdv; simp only []; split <;> rfl
+
+theorem step_finished (c : Cfg) (s : St) {op : Op} (h : op ≠ .close) :
+    (step c s op).1.finished = s.finished := by
+  cases hf : s.finished with
+  | true => rw [step_of_finished hf, hf]
+  | false =>
+    rw [step_of_not_finished hf, ← hf]
+    cases op with
+    | dg m len => exact (stepDg_frame c s m len).1.finished
+    | reply m len => exact (stepReply_frame c s m len).finished
+    | adv ms => exact stepAdv_finished c s ms
+    | close => exact absurd rfl h
+
+theorem run_not_finished (c : Cfg) (s : St) (ops : List Op) (hs : s.finished = false)
+    (h : ∀ op ∈ ops, op ≠ .close) : (run c s ops).1.finished = false := by
+  induction ops generalizing s with
+  | nil => exact hs
+  | cons op ops ih =>
+    apply ih (step c s op).1
+    · rw [step_finished c s (h op (List.mem_cons_self ..))]; exact hs
+    · exact fun o ho => h o (List.mem_cons_of_mem _ ho)
+
+/-! ## observations -/
+
+theorem sinkWrite_srv {c s m len} (hd : ∀ k ∈ s.socks, k.dest = k.key.dst) :
+    (sinkWrite c s m len).2.srv = [] ∨ (sinkWrite c s m len).2.srv = [(m.dst, m, len)] := by
+  unfold sinkWrite
+  split
+  · exact .inl rfl
+  · next k hs =>
+    obtain ⟨hkm, hkk⟩ := findSock_some hs
+    have : k.dest = m.dst := by rw [hd k hkm, hkk]
+    split
+    · exact .inl rfl
+    · split
+      · right; rw [← this]
+      · right; rw [← this]
+      · exact .inl rfl
+      · exact .inl rfl
+
+theorem stepDg_srv {c s m len} (hd : ∀ k ∈ s.socks, k.dest = k.key.dst) :
+    (stepDg c s m len).2.srv = [] ∨ (stepDg c s m len).2.srv = [(m.dst, m, len)] := by
+  unfold stepDg
+  split
+  · exact sinkWrite_srv hd
+  · split
+    · exact .inl rfl
+    · split
+      · exact .inl rfl
+      · apply sinkWrite_srv
+        intro k hk
+        rcases List.mem_cons.1 hk with rfl | hk
+        · rfl
+        · exact hd k hk
+
+theorem step_dg_obs {c s} (h : Inv c s) (m : Meta) (len : Nat) :
+    ((step c s (.dg m len)).2.srv = [] ∨ (step c s (.dg m len)).2.srv = [(m.dst, m, len)]) ∧
+      (step c s (.dg m len)).2.cli = [] := by
+  cases hf : s.finished with
+  | true => rw [step_of_finished hf]; exact ⟨.inl rfl, rfl⟩
+  | false =>
+    rw [step_of_not_finished hf]
+    exact ⟨stepDg_srv fun k hk => (h.core.sock k hk).1, (stepDg_frame c s m len).2.2⟩
+
+theorem step_reply_obs {c s} (h : Inv c s) (m : Meta) (len : Nat) :
+    (step c s (.reply m len)).2 = {} ∨ (step c s (.reply m len)).2 = { cli := [(m, m, len)] } := by
+  cases hf : s.finished with
+  | true => rw [step_of_finished hf]; exact .inl rfl
+  | false =>
+    rw [step_of_not_finished hf]
+    rcases stepReply_cases c s m len with e | ⟨p, k, hp, hk, _, e⟩
+    · simp only []; rw [e]; exact .inl rfl
+    · simp only []; rw [e, (replyCore_frame s k m len).2.2, (reply_sock_key h hp hk).2]; exact .inr rfl
+
+theorem step_obs {c s} (h : Inv c s) (op : Op) :
+    (∀ x ∈ (step c s op).2.srv, x.1 = x.2.1.dst) ∧ (∀ x ∈ (step c s op).2.cli, x.1 = x.2.1) := by
+  cases op with
+  | dg m len =>
+    obtain ⟨h1, h2⟩ := step_dg_obs h m len
+    rw [h2]
+    rcases h1 with h1 | h1 <;> rw [h1] <;> simp
+  | reply m len =>
+    rcases step_reply_obs h m len with h1 | h1 <;> rw [h1] <;> simp
+  | adv ms =>
+    cases hf : s.finished with
+    | true => rw [step_of_finished hf]; simp
+    | false => rw [step_of_not_finished hf]; simp
+  | close =>
+    cases hf : s.finished with
+    | true => rw [step_of_finished hf]; simp
+    | false => rw [step_of_not_finished hf]; simp
+
+theorem run_obs_forall {c : Cfg} {P : Obs → Prop} (hP : ∀ s op, Inv c s → P (step c s op).2)
+    {s : St} (h : Inv c s) (ops : List Op) : ∀ o ∈ (run c s ops).2, P o := by
+  induction ops generalizing s with
+  | nil => intro o ho; simp [run] at ho
+  | cons op ops ih =>
+    intro o ho
+    simp only [run, List.mem_cons] at ho
+    rcases ho with rfl | ho
+    · exact hP s op h
+    · exact ih (step_inv h op) o ho
+
+/-! ## byte counts -/
+
+theorem step_down (c : Cfg) (s : St) (op : Op) :
+    (step c s op).1.down = s.down + ((step c s op).2.cli.map (·.2.2)).sum := by
+  cases hf : s.finished with
+  | true => rw [step_of_finished hf]; simp
+  | false =>
+    rw [step_of_not_finished hf]
+    cases op with
+    | dg m len =>
+      simp only []
+      rw [(stepDg_frame c s m len).2.1, (stepDg_frame c s m len).2.2]; simp
+    | reply m len =>
+      simp only []
+      rcases stepReply_cases c s m len with e | ⟨p, k, _, _, _, e⟩
+      · rw [e]; simp
+      · rw [e, (replyCore_frame s k m len).2.1, (replyCore_frame s k m len).2.2]; simp
+    | adv ms => simp [stepAdv]; split <;> rfl
+    | close => simp
+
+theorem run_down (c : Cfg) (s : St) (ops : List Op) :
+    (run c s ops).1.down = s.down + ((run c s ops).2.map fun o => (o.cli.map (·.2.2)).sum).sum := by
+  induction ops generalizing s with
+  | nil => simp [run]
+  | cons op ops ih =>
+    simp only [run, List.map_cons, List.sum_cons]
+    rw [ih, step_down]; omega
+
+/-! ## operations on one flow leave the others alone -/
+
+/-- flow `m'` looks the same in both states -/
+def Same (s' s : St) (m' : Meta) : Prop :=
+  s'.pipe.find? (·.key == m') = s.pipe.find? (·.key == m') ∧ findSock s' m' = findSock s m'
+
+theorem Same.trans {a b d : St} {m : Meta} (h1 : Same a b m) (h2 : Same b d m) : Same a d m :=
+  ⟨h1.1.trans h2.1, h1.2.trans h2.2⟩
+
+theorem remove_same (s : St) {m m' : Meta} (hne : m' ≠ m) :
+    Same (removeSock (removePipe s m) m) s m' :=
+  ⟨find?_filter_key_ne PipeEntry.key s.pipe hne, find?_filter_key_ne Sock.key s.socks hne⟩
+
+theorem sinkWrite_other (c : Cfg) (s : St) {m m' : Meta} (len : Nat) (hne : m' ≠ m) :
+    Same (sinkWrite c s m len).1 s m' := by
+  unfold sinkWrite
+  split
+  · exact remove_same s hne
+  · split
+    · exact remove_same s hne
+    · split
+      · exact ⟨rfl, rfl⟩
+      · exact ⟨rfl, rfl⟩
+      · refine ⟨rfl, ?_⟩
+        apply find?_map_key_other Sock.key _ s.socks hne
+        · intro x; split <;> rfl
+        · intro x hx
+          have : ¬ x.key = m := hx
+          simp [this]
+      · exact ⟨rfl, rfl⟩
+
+theorem stepDg_other (c : Cfg) (s : St) {m m' : Meta} (len : Nat) (hne : m' ≠ m) :
+    Same (stepDg c s m len).1 s m' := by
+  unfold stepDg
+  split
+  · refine (sinkWrite_other c _ len hne).trans ⟨?_, rfl⟩
+    apply find?_map_key_other PipeEntry.key _ s.pipe hne
+    · intro x; split <;> rfl
+    · intro x hx
+      have : ¬ x.key = m := hx
+      simp [this]
+  · split
+    · exact ⟨rfl, rfl⟩
+    · split
+      · exact ⟨rfl, rfl⟩
+      · refine (sinkWrite_other c _ len hne).trans ⟨?_, ?_⟩
+        · exact List.find?_cons_of_neg (by simpa [touchOut_key] using fun e => hne e.symm)
+        · exact List.find?_cons_of_neg (by simpa using fun e => hne e.symm)
+
+theorem replyCore_other (s : St) (k : Sock) {m m' : Meta} (len : Nat) (hk : k.key = m) (hne : m' ≠ m) :
+    Same (replyCore s k m len).1 s m' := by
+  subst hk
+  unfold replyCore
+  simp only []
+  split
+  · exact ⟨rfl, rfl⟩
+  · next e he =>
+    split
+    · exact remove_same { s with down := s.down + len } hne
+    · refine ⟨?_, rfl⟩
+      have hek := (pipeFind_some (s := s) he).2
+      apply find?_map_key_other PipeEntry.key _ s.pipe hne
+      · intro x; split
+        · next hx => rw [touchIn_key, hek]; exact (by simpa using hx : x.key = k.key).symm
+        · rfl
+      · intro x hx
+        have : ¬ x.key = k.key := hx
+        simp [this]
+
+theorem step_dg_other {c s} (m : Meta) (len : Nat) {m' : Meta} (hne : m' ≠ m) :
+    Same (step c s (.dg m len)).1 s m' := by
+  cases hf : s.finished with
+  | true => rw [step_of_finished hf]; exact ⟨rfl, rfl⟩
+  | false => rw [step_of_not_finished hf]; exact stepDg_other c s len hne
+
+theorem step_reply_other {c s} (h : Inv c s) (m : Meta) (len : Nat) {m' : Meta} (hne : m' ≠ m) :
+    Same (step c s (.reply m len)).1 s m' := by
+  cases hf : s.finished with
+  | true => rw [step_of_finished hf]; exact ⟨rfl, rfl⟩
+  | false =>
+    rw [step_of_not_finished hf]
+    simp only []
+    rcases stepReply_cases c s m len with e | ⟨p, k, hp, hk, _, e⟩
+    · rw [e]; exact ⟨rfl, rfl⟩
+    · rw [e]; exact replyCore_other s k len (reply_sock_key h hp hk).2 hne
+
+/-! ## where sockets come from -/
+
+theorem replyCore_socks_sub (s : St) (k : Sock) (m : Meta) (len : Nat) :
+    ∀ x ∈ (replyCore s k m len).1.socks, x ∈ s.socks := by
+  unfold replyCore
+  simp only []
+  split
+  · exact fun x hx => hx
+  · split
+    · exact fun x hx => (List.mem_filter.1 hx).1
+    · exact fun x hx => hx
+
+theorem stepAdv_sub (c : Cfg) (s : St) (ms : Nat) :
+    (∀ x ∈ (stepAdv c s ms).socks, x ∈ s.socks) ∧ (∀ x ∈ (stepAdv c s ms).pipe, x ∈ s.pipe) := by
+  unfold stepAdv
+  simp only []
+  split
+  · exact ⟨fun x hx => (List.mem_filter.1 hx).1, fun x hx => (List.mem_filter.1 hx).1⟩
+  · exact ⟨fun x hx => hx, fun x hx => hx⟩
+
+theorem step_socks_origin {c s} (_h : Inv c s) (op : Op) :
+    ∀ k ∈ (step c s op).1.socks, k.key ∈ s.socks.map (·.key) ∨ ∃ len, op = .dg k.key len := by
+  intro k hk
+  cases hf : s.finished with
+  | true => rw [step_of_finished hf] at hk; exact .inl (List.mem_map_of_mem hk)
+  | false =>
+    rw [step_of_not_finished hf] at hk
+    cases op with
+    | dg m len =>
+      by_cases hkm : k.key = m
+      · exact .inr ⟨len, by rw [hkm]⟩
+      · left
+        have hs := (stepDg_other c s len hkm).2
+        rw [← findSock_isSome_iff, ← hs, findSock_isSome_iff]
+        exact List.mem_map_of_mem hk
+    | reply m len =>
+      left
+      simp only [] at hk
+      rcases stepReply_cases c s m len with e | ⟨p, k', _, _, _, e⟩
+      · rw [e] at hk; exact List.mem_map_of_mem hk
+      · rw [e] at hk; exact List.mem_map_of_mem (replyCore_socks_sub s k' m len k hk)
+    | adv ms => exact .inl (List.mem_map_of_mem ((stepAdv_sub c s ms).1 k hk))
+    | close => simp at hk
+
+theorem run_socks_origin {c s} (h : Inv c s) (ops : List Op) :
+    ∀ k ∈ (run c s ops).1.socks, k.key ∈ s.socks.map (·.key) ∨ ∃ len, Op.dg k.key len ∈ ops := by
+  induction ops generalizing s with
+  | nil => exact fun k hk => .inl (List.mem_map_of_mem hk)
+  | cons op ops ih =>
+    intro k hk
+    rcases ih (step_inv h op) k hk with h1 | ⟨len, h1⟩
+    · obtain ⟨k0, hk0, hkey⟩ := List.mem_map.1 h1
+      rcases step_socks_origin h op k0 hk0 with h2 | ⟨len, h2⟩
+      · exact .inl (hkey ▸ h2)
+      · exact .inr ⟨len, by rw [← hkey, ← h2]; exact List.mem_cons_self ..⟩
+    · exact .inr ⟨len, List.mem_cons_of_mem _ h1⟩
+
+theorem runFrom_socks (c : Cfg) (ops : List Op) :
+    ∀ k ∈ (runFrom c ops).1.socks, k.dest = k.key.dst ∧ ∃ len, Op.dg k.key len ∈ ops := by
+  intro k hk
+  refine ⟨((runFrom_inv c ops).core.sock k hk).1, ?_⟩
+  rcases run_socks_origin (inv_init c) ops k hk with h | h
+  · simp [init] at h
+  · exact h
+
+/-! ## expiry of an idle flow -/
+
+/-- the operation concerns flow `m` -/
+def concerns (m : Meta) : Op → Bool
+  | .dg m' _ => m' == m
+  | .reply m' _ => m' == m
+  | .adv _ => false
+  | .close => false
+
+def advTotal : List Op → Nat
+  | [] => 0
+  | .adv ms :: r => ms + advTotal r
+  | _ :: r => advTotal r
+
+theorem mem_of_same {c s' s} (h' : Inv c s') {m : Meta} (hs : Same s' s m) {e : PipeEntry}
+    (he : e ∈ s'.pipe) (hk : e.key = m) : e ∈ s.pipe := by
+  have := find?_key_of_mem_nodup PipeEntry.key s'.pipe h'.core.nodupK he
+  rw [show PipeEntry.key e = m from hk] at this
+  exact (pipeFind_some (s := s) (hs.1 ▸ this)).1
+
+theorem untouched_mem {c s} (h : Inv c s) {m : Meta} {op : Op} (hu : concerns m op = false) :
+    ∀ e ∈ (step c s op).1.pipe, e.key = m → e ∈ s.pipe := by
+  intro e he hk
+  have h' := step_inv h op
+  cases op with
+  | dg m' len =>
+    have hne : m ≠ m' := fun e' => by simp [concerns, e'] at hu
+    exact mem_of_same h' (step_dg_other m' len hne) he hk
+  | reply m' len =>
+    have hne : m ≠ m' := fun e' => by simp [concerns, e'] at hu
+    exact mem_of_same h' (step_reply_other h m' len hne) he hk
+  | adv ms =>
+    cases hf : s.finished with
+    | true => rw [step_of_finished hf] at he; exact he
+    | false => rw [step_of_not_finished hf] at he; exact (stepAdv_sub c s ms).2 e he
+  | close =>
+    cases hf : s.finished with
+    | true => rw [step_of_finished hf] at he; exact he
+    | false => rw [step_of_not_finished hf] at he; simp at he
+
+def Idle (c : Cfg) (t0 : Nat) (m : Meta) (s : St) : Prop :=
+  ∀ e ∈ s.pipe, e.key = m →
+    e.last ≤ t0 ∧ s.nextTick ≤ t0 + c.timeout + c.timeout / 4 ∧ s.now ≤ t0 + c.timeout + c.timeout / 4
+
+theorem idle_start {c s} (h : Inv c s) (m : Meta) : Idle c s.now m s := fun e he _ =>
+  ⟨h.core.last e he, by have := h.core.tick; omega, by omega⟩
+
+theorem step_frame_of_not_adv (c : Cfg) (s : St) {op : Op} (h : ∀ ms, op ≠ .adv ms) :
+    (step c s op).1.now = s.now ∧ (step c s op).1.nextTick = s.nextTick := by
+  cases hf : s.finished with
+  | true => rw [step_of_finished hf]; exact ⟨rfl, rfl⟩
+  | false =>
+    rw [step_of_not_finished hf]
+    cases op with
+    | dg m len => exact ⟨(stepDg_frame c s m len).1.now, (stepDg_frame c s m len).1.nextTick⟩
+    | reply m len => exact ⟨(stepReply_frame c s m len).now, (stepReply_frame c s m len).nextTick⟩
+    | adv ms => exact absurd rfl (h ms)
+    | close => exact ⟨rfl, rfl⟩
+
+theorem step_idle {c s t0} {m : Meta} {op : Op} (h : Inv c s) (hi : Idle c t0 m s)
+    (hu : concerns m op = false) : Idle c t0 m (step c s op).1 := by
+  intro e he hk
+  obtain ⟨h1, h2, h3⟩ := hi e (untouched_mem h hu e he hk) hk
+  by_cases hadv : ∃ ms, op = .adv ms
+  · obtain ⟨ms, rfl⟩ := hadv
+    cases hf : s.finished with
+    | true => rw [step_of_finished hf]; exact ⟨h1, h2, h3⟩
+    | false =>
+      rw [step_of_not_finished hf] at he ⊢
+      simp only [] at he ⊢
+      unfold stepAdv at he ⊢
+      simp only [] at he ⊢
+      split at he
+      · next ht =>
+        rw [if_pos ht]
+        have := (List.mem_filter.1 he).2
+        simp only [Bool.not_eq_true', decide_eq_false_iff_not] at this
+        refine ⟨h1, ?_, ?_⟩
+        · show s.now + ms + c.timeout / 4 ≤ _
+          omega
+        · show s.now + ms ≤ _
+          omega
+      · next ht =>
+        rw [if_neg ht]
+        refine ⟨h1, h2, ?_⟩
+        show s.now + ms ≤ _
+        have : ¬ s.nextTick ≤ s.now + ms := ht
+        omega
+  · have := step_frame_of_not_adv c s (op := op) (fun ms e' => hadv ⟨ms, e'⟩)
+    rw [this.1, this.2]; exact ⟨h1, h2, h3⟩
+
+theorem run_idle {c s t0} {m : Meta} (h : Inv c s) (hi : Idle c t0 m s) (ops : List Op)
+    (hu : ∀ op ∈ ops, concerns m op = false) : Idle c t0 m (run c s ops).1 := by
+  induction ops generalizing s with
+  | nil => exact hi
+  | cons op ops ih =>
+    exact ih (step_inv h op) (step_idle h hi (hu op (List.mem_cons_self ..)))
+      (fun o ho => hu o (List.mem_cons_of_mem _ ho))
+
+theorem run_of_finished (c : Cfg) {s : St} (hf : s.finished = true) (ops : List Op) :
+    (run c s ops).1 = s := by
+  induction ops with
+  | nil => rfl
+  | cons op ops ih =>
+    show (run c (step c s op).1 ops).1 = s
+    rw [step_of_finished hf]; exact ih
+
+theorem step_now (c : Cfg) {s : St} (hf : s.finished = false) (op : Op) :
+    (step c s op).1.now = s.now + advTotal [op] := by
+  cases op with
+  | adv ms =>
+    rw [step_of_not_finished hf]
+    simp only [advTotal]
+    unfold stepAdv; simp only []; split <;> rfl
+  | dg m len => exact (step_frame_of_not_adv c s (fun ms e => by cases e)).1
+  | reply m len => exact (step_frame_of_not_adv c s (fun ms e => by cases e)).1
+  | close => exact (step_frame_of_not_adv c s (fun ms e => by cases e)).1
+
+theorem advTotal_cons (op : Op) (ops : List Op) : advTotal (op :: ops) = advTotal [op] + advTotal ops := by
+  cases op <;> simp [advTotal]
+
+theorem run_now (c : Cfg) (s : St) (ops : List Op) (hf : (run c s ops).1.finished = false) :
+    (run c s ops).1.now = s.now + advTotal ops := by
+  induction ops generalizing s with
+  | nil => rfl
+  | cons op ops ih =>
+    cases hs : s.finished with
+    | true => rw [run_of_finished c hs] at hf; rw [hs] at hf; cases hf
+    | false =>
+      have := ih (step c s op).1 hf
+      show (run c (step c s op).1 ops).1.now = _
+      rw [this, step_now c hs, advTotal_cons op ops]; omega
+
+theorem idle_released {c s} (h : Inv c s) (ops : List Op) (m : Meta)
+    (hu : ∀ op ∈ ops, concerns m op = false)
+    (hd : c.timeout + c.timeout / 4 < advTotal ops) :
+    hasPipe (run c s ops).1 m = false ∧ findSock (run c s ops).1 m = none := by
+  have h' := run_inv h ops
+  have hp : hasPipe (run c s ops).1 m = false := by
+    cases hh : hasPipe (run c s ops).1 m with
+    | false => rfl
+    | true =>
+      obtain ⟨e, he, hk⟩ := List.mem_map.1 (hasPipe_iff.1 hh)
+      have hi := run_idle h (idle_start h m) ops hu e he hk
+      have hn := run_now c s ops (h'.not_finished_of_pipe he)
+      omega
+  refine ⟨hp, ?_⟩
+  have := h'.core.coupled m
+  rw [hp] at this
+  cases hfs : findSock (run c s ops).1 m with
+  | none => rfl
+  | some k => rw [hfs] at this; simp at this
+
+/-! ## single steps computed -/
+
+theorem Inv.findSock_of_entry {c s} (h : Inv c s) {m : Meta} {e : PipeEntry}
+    (he : s.pipe.find? (·.key == m) = some e) :
+    ∃ k, findSock s m = some k ∧ k ∈ s.socks ∧ k.key = m ∧ k.dest = m.dst ∧ s.finished = false := by
+  obtain ⟨he1, he2⟩ := pipeFind_some he
+  have hp : hasPipe s m = true := hasPipe_iff.2 (he2 ▸ List.mem_map_of_mem he1)
+  rw [h.core.coupled m] at hp
+  obtain ⟨k, hk⟩ := Option.isSome_iff_exists.1 hp
+  obtain ⟨hk1, hk2⟩ := findSock_some hk
+  exact ⟨k, hk, hk1, hk2, by rw [(h.core.sock k hk1).1, hk2], h.not_finished_of_pipe he1⟩
+
+theorem findSock_none_of_hasPipe {c s} (h : Inv c s) {m : Meta} (hn : hasPipe s m = false) :
+    findSock s m = none := by
+  have := h.core.coupled m
+  rw [hn] at this
+  cases hfs : findSock s m with
+  | none => rfl
+  | some k => rw [hfs] at this; simp at this
+
+theorem step_reply_live {c s} (h : Inv c s) {m : Meta} (len : Nat) (hs : (findSock s m).isSome)
+    (hk : c.kind m.dst = .live ∨ c.kind m.dst = .dns) :
+    (step c s (.reply m len)).2.cli = [(m, m, len)] := by
+  obtain ⟨k, hs⟩ := Option.isSome_iff_exists.1 hs
+  obtain ⟨hk1, hk2⟩ := findSock_some hs
+  have hd : k.dest = m.dst := by rw [(h.core.sock k hk1).1, hk2]
+  rw [step_of_not_finished (h.not_finished_of_sock hk1)]
+  simp only []
+  rw [stepReply_live h hs (by rw [hd]; exact hk), (replyCore_frame s k m len).2.2, hk2]
+
+theorem replyCore_entry {s : St} {k : Sock} {m : Meta} {e : PipeEntry} (len : Nat) (hk : k.key = m)
+    (he : s.pipe.find? (·.key == m) = some e) :
+    (replyCore s k m len).1 =
+      if (touchIn s.now e).2 then removeSock (removePipe { s with down := s.down + len } m) m
+      else { s with down := s.down + len,
+                    pipe := s.pipe.map fun x => if x.key == m then (touchIn s.now e).1 else x } := by
+  subst hk
+  unfold replyCore
+  simp only []
+  rw [he]
+  simp only []
+  split <;> rfl
+
+theorem step_reply_entry {c s} (h : Inv c s) {m : Meta} {e : PipeEntry} (len : Nat)
+    (he : s.pipe.find? (·.key == m) = some e) (hp : e.pending.isSome) :
+    (step c s (.reply m len)).2.cli = [(m, m, len)] ∧
+    (step c s (.reply m len)).1 =
+      if (touchIn s.now e).2 then removeSock (removePipe { s with down := s.down + len } m) m
+      else { s with down := s.down + len,
+                    pipe := s.pipe.map fun x => if x.key == m then (touchIn s.now e).1 else x } := by
+  obtain ⟨he1, he2⟩ := pipeFind_some he
+  obtain ⟨k, hs, hk1, hk2, hd, hf⟩ := h.findSock_of_entry he
+  have hdns : c.kind m.dst = .dns := he2 ▸ h.core.pend e he1 hp
+  refine ⟨step_reply_live h len (by rw [hs]; rfl) (.inr hdns), ?_⟩
+  rw [step_of_not_finished hf]
+  simp only []
+  rw [stepReply_live h hs (by rw [hd]; exact .inr hdns), replyCore_entry len hk2 he]
+
+theorem step_reply_dns_done {c s} (h : Inv c s) {m : Meta} {e : PipeEntry} (len : Nat)
+    (he : s.pipe.find? (·.key == m) = some e) (hp : e.pending = some 1) :
+    (step c s (.reply m len)).2.cli = [(m, m, len)] ∧ hasPipe (step c s (.reply m len)).1 m = false ∧
+      findSock (step c s (.reply m len)).1 m = none := by
+  obtain ⟨h1, h2⟩ := step_reply_entry h len he (by rw [hp]; rfl)
+  have : (touchIn s.now e).2 = true := by simp [touchIn, hp]
+  rw [this, if_pos rfl] at h2
+  rw [h2]
+  exact ⟨h1, any_filter_key_self PipeEntry.key _ m, find?_filter_key_self Sock.key _ m⟩
+
+theorem step_reply_dns_pending {c s} (h : Inv c s) {m : Meta} {e : PipeEntry} (len n : Nat)
+    (he : s.pipe.find? (·.key == m) = some e) (hp : e.pending = some (n + 2)) :
+    (step c s (.reply m len)).2.cli = [(m, m, len)] ∧
+    (step c s (.reply m len)).1.pipe.find? (·.key == m)
+      = some { e with last := s.now, pending := some (n + 1) } ∧
+    findSock (step c s (.reply m len)).1 m = findSock s m := by
+  obtain ⟨h1, h2⟩ := step_reply_entry h len he (by rw [hp]; rfl)
+  have hk := (pipeFind_some he).2
+  have ht : touchIn s.now e = ({ e with last := s.now, pending := some (n + 1) }, false) := by
+    simp [touchIn, hp]
+  rw [ht] at h2
+  simp only [Bool.false_eq_true, if_false] at h2
+  rw [h2]
+  refine ⟨h1, ?_, rfl⟩
+  have := find?_map_key_self PipeEntry.key
+    (fun x => if x.key == m then { e with last := s.now, pending := some (n + 1) } else x) s.pipe
+    (m := m) (e := e) (by intro x; split <;> simp_all) he
+  show List.find? _ (List.map _ s.pipe) = _
+  rw [this]; simp [hk]
+
+theorem sinkWrite_poisoned {c s} {m : Meta} {k : Sock} (len : Nat) (hs : findSock s m = some k)
+    (hp : k.poisoned = true) : sinkWrite c s m len = (removeSock (removePipe s m) m, {}) := by
+  unfold sinkWrite
+  rw [hs]
+  simp [hp]
+
+theorem sinkWrite_pipe_ok {c s} {m : Meta} {k : Sock} (len : Nat) (hs : findSock s m = some k)
+    (hp : k.poisoned = false) : (sinkWrite c s m len).1.pipe = s.pipe := by
+  unfold sinkWrite
+  rw [hs]
+  simp only [hp, Bool.false_eq_true, if_false]
+  split <;> rfl
+
+theorem step_dg_existing {c s} (h : Inv c s) {m : Meta} {e : PipeEntry} (len : Nat)
+    (he : s.pipe.find? (·.key == m) = some e)
+    (hs : ∀ k, findSock s m = some k → k.poisoned = false) :
+    (step c s (.dg m len)).1.pipe.find? (·.key == m) = some (touchOut s.now e) := by
+  obtain ⟨he1, he2⟩ := pipeFind_some he
+  obtain ⟨k, hk, _, _, _, hf⟩ := h.findSock_of_entry he
+  have hp : hasPipe s m = true := hasPipe_iff.2 (he2 ▸ List.mem_map_of_mem he1)
+  rw [step_of_not_finished hf]
+  simp only []
+  unfold stepDg
+  rw [if_pos hp]
+  simp only []
+  rw [sinkWrite_pipe_ok (c := c)
+    (s := { s with pipe := s.pipe.map fun e => if e.key == m then touchOut s.now e else e }) len hk (hs k hk)]
+  have := find?_map_key_self PipeEntry.key (fun x => if x.key == m then touchOut s.now x else x) s.pipe
+    (m := m) (e := e) (by intro x; split <;> rfl) he
+  show List.find? _ (List.map _ s.pipe) = _
+  rw [this]; simp [he2]
+
+theorem step_dg_poisoned {c s} (h : Inv c s) {m : Meta} {k : Sock} (len : Nat)
+    (hs : findSock s m = some k) (hp : k.poisoned = true) :
+    hasPipe (step c s (.dg m len)).1 m = false ∧ findSock (step c s (.dg m len)).1 m = none ∧
+    (step c s (.dg m len)).1.finished = false ∧
+    (step c s (.dg m len)).1.socks.length + 1 = s.socks.length := by
+  obtain ⟨hk1, hk2⟩ := findSock_some hs
+  have hf := h.not_finished_of_sock hk1
+  have hhp : hasPipe s m = true := by rw [h.core.coupled m, hs]; rfl
+  rw [step_of_not_finished hf]
+  simp only []
+  unfold stepDg
+  rw [if_pos hhp]
+  simp only []
+  rw [sinkWrite_poisoned (c := c)
+    (s := { s with pipe := s.pipe.map fun e => if e.key == m then touchOut s.now e else e }) len hs hp]
+  refine ⟨any_filter_key_self PipeEntry.key _ m, find?_filter_key_self Sock.key _ m, hf, ?_⟩
+  have := filter_key_ne_length Sock.key s.socks h.core.nodupSK hk1
+  rw [show Sock.key k = m from hk2] at this
+  exact this
+
+theorem step_dg_unconn {c s} (h : Inv c s) {m : Meta} (len : Nat) (hk : c.kind m.dst = .unconn) :
+    (step c s (.dg m len)).2.srv = [] ∧ (step c s (.dg m len)).1.pipe = s.pipe ∧
+    (step c s (.dg m len)).1.socks = s.socks ∧ (step c s (.dg m len)).1.finished = s.finished := by
+  cases hf : s.finished with
+  | true => rw [step_of_finished hf]; exact ⟨rfl, rfl, rfl, hf⟩
+  | false =>
+    have hn : hasPipe s m = false := by
+      cases hh : hasPipe s m with
+      | false => rfl
+      | true =>
+        rw [h.core.coupled m] at hh
+        obtain ⟨k, hs⟩ := Option.isSome_iff_exists.1 hh
+        obtain ⟨hk1, hk2⟩ := findSock_some hs
+        have := h.core.sock k hk1
+        rw [this.1, hk2] at this
+        exact absurd hk this.2.2
+    have hfs := findSock_none_of_hasPipe h hn
+    rw [step_of_not_finished hf]
+    simp only []
+    unfold stepDg
+    rw [if_neg (by simp [hn]), hfs]
+    simp [hk, hf]
+
+theorem step_dg_fresh {c s} (h : Inv c s) {m : Meta} (len : Nat) (hf : s.finished = false)
+    (hn : hasPipe s m = false) (hk : c.kind m.dst = .live ∨ c.kind m.dst = .dns) :
+    (step c s (.dg m len)).2.srv = [(m.dst, m, len)] ∧ hasPipe (step c s (.dg m len)).1 m = true ∧
+    findSock (step c s (.dg m len)).1 m
+      = some { key := m, id := s.nextId, dest := m.dst, poisoned := false } ∧
+    (∀ k ∈ s.socks, k.id ≠ s.nextId) := by
+  have hfs := findSock_none_of_hasPipe h hn
+  have hids : ∀ k ∈ s.socks, k.id ≠ s.nextId := fun k hk' => Nat.ne_of_lt (h.core.sock k hk').2.1
+  rw [step_of_not_finished hf]
+  simp only []
+  unfold stepDg
+  rw [if_neg (by simp [hn]), hfs]
+  rcases hk with hk | hk <;>
+    simp [hk, sinkWrite, findSock, hasPipe, touchOut] <;> exact hids
+
+theorem step_adv_tick {c s} (ms : Nat) (hf : s.finished = false) (ht : s.nextTick ≤ s.now + ms) :
+    ∀ e ∈ (step c s (.adv ms)).1.pipe, e.last + c.timeout ≥ s.now + ms := by
+  rw [step_of_not_finished hf]
+  simp only []
+  unfold stepAdv
+  simp only []
+  rw [if_pos ht]
+  intro e he
+  have := (List.mem_filter.1 he).2
+  simp only [Bool.not_eq_true', decide_eq_false_iff_not] at this
+  omega
+
+theorem find?_filter_key_keep {α κ : Type} [DecidableEq κ] (key : α → κ) (q : κ → Bool) (l : List α)
+    {m : κ} (hq : q m = true) :
+    (l.filter (fun x => q (key x))).find? (fun x => key x == m) = l.find? (fun x => key x == m) := by
+  induction l with
+  | nil => rfl
+  | cons a l ih =>
+    by_cases h1 : key a = m
+    · subst h1; simp [List.filter_cons, hq]
+    · by_cases h2 : q (key a) = true
+      · simp [List.filter_cons, h2, h1, ih]
+      · simp [List.filter_cons, h2, h1, ih]
+
+theorem find?_filter_of_find? {α : Type} (p q : α → Bool) (l : List α) {e : α}
+    (he : l.find? q = some e) (hp : p e = true) : (l.filter p).find? q = some e := by
+  induction l with
+  | nil => simp at he
+  | cons a l ih =>
+    by_cases hq : q a = true
+    · simp [hq] at he
+      subst he
+      simp [List.filter_cons, hp, hq]
+    · simp [hq] at he
+      by_cases hpa : p a = true
+      · simp [List.filter_cons, hpa, hq, ih he]
+      · simp [List.filter_cons, hpa, ih he]
+
+theorem step_adv_fresh {c s} (h : Inv c s) {m : Meta} {e : PipeEntry} (ms : Nat)
+    (he : s.pipe.find? (·.key == m) = some e) (hfresh : s.now + ms ≤ e.last + c.timeout) :
+    (step c s (.adv ms)).1.pipe.find? (·.key == m) = some e ∧
+      findSock (step c s (.adv ms)).1 m = findSock s m := by
+  obtain ⟨he1, he2⟩ := pipeFind_some he
+  have hf := h.not_finished_of_pipe he1
+  rw [step_of_not_finished hf]
+  simp only []
+  unfold stepAdv
+  simp only []
+  split
+  · have hq : (!((s.pipe.filter fun e => e.last + c.timeout < s.now + ms).map (·.key)).contains m) = true := by
+      simp only [Bool.not_eq_true', ← Bool.not_eq_true, List.contains_iff_mem, List.mem_map,
+        List.mem_filter, decide_eq_true_eq]
+      rintro ⟨e', ⟨he', hx⟩, hk'⟩
+      have : e' = e := eq_of_nodup_map PipeEntry.key h.core.nodupK he' he1 (hk'.trans he2.symm)
+      subst this; omega
+    unfold expire
+    dsimp only
+    refine ⟨find?_filter_of_find? _ _ s.pipe he ?_,
+      find?_filter_key_keep Sock.key
+        (fun key => !((s.pipe.filter fun e : PipeEntry => e.last + c.timeout < s.now + ms).map
+          PipeEntry.key).contains key)
+        s.socks hq⟩
+    simp only [Bool.not_eq_true', decide_eq_false_iff_not]; omega
+  · exact ⟨he, rfl⟩
+
+theorem step_close {c s} (h : Inv c s) :
+    (step c s .close).1.socks = [] ∧ (step c s .close).1.pipe = [] := by
+  cases hf : s.finished with
+  | true => rw [step_of_finished hf]; exact ⟨(h.core.fin hf).2, (h.core.fin hf).1⟩
+  | false => rw [step_of_not_finished hf]; exact ⟨rfl, rfl⟩
 
 end TT.UdpFlows
